@@ -234,7 +234,7 @@ def _u2(tier):
             symbolic_vars="all offsets as unbounded z3 Ints; batch kinds, isolation level, retrieval style and which batch fails its checksum as choices",
             bounds={"batches": nb, "records_per_batch": "0..2"},
             assumptions=["as C08-U1 (a)-(d)"], stubs=["record batches replaced by stub objects; one of them reports an invalid checksum"],
-            max_seconds=300 if tier == "quick" else 1500, twin_max_paths=2000))
+            max_seconds=300 if tier == "quick" else 1500, budget=(900 if nb == 3 else 0), max_paths=5000000, twin_max_paths=2000))
     return hs
 
 
